@@ -193,6 +193,16 @@ def _check(prog, rep):
     for inner in lms:
         if inner is not scan and inner.blocks < scan.blocks:
             n_inner += 1
+            # the comparison runs over (the line's prefix, the indent found so far): the indent as it enters this
+            # iteration of the scan, not a value assigned earlier in the same iteration
+            src_i = inner.source
+            okz = False
+            if src_i is not None and src_i[0] == "call" and src_i[1] == "Iterator::zip" and len(src_i[2]) == 2:
+                a0, a1 = src_i[2]
+                okz = prefix is not None and a0 == ("call", "str::char_indices", (prefix,)) and a1 == ("call", "str::chars", (SI,))
+            r5.check(okz, "compare-with-current", "the char comparison zips the line's prefix with the subsequent indent found so far",
+                     D(src_i) if src_i else "?", "the char comparison runs over %s; expected prefix.char_indices().zip(<subsequent indent as "
+                     "found on the previous lines>.chars())" % (D(src_i) if src_i else "?"), site=site_of_block(body, inner.header))
             for tr in loop_system(prog, body, inner, [], []):
                 if tr.kind != "back":
                     continue
